@@ -269,7 +269,7 @@ def oracle_c19(v):
                 if code != want:
                     bad.append(('report-truth', 'task %d executed with outcome %s but was reported with code %d' % (t, o, code)))
                 if code == 4:
-                    wk = {'fail': 0, 'error': 1, 'saveerr': 3}.get(o)
+                    wk = {'fail': 0, 'error': 1, 'saveerr': 3, 'failv': 0}.get(o)
                     if wk is not None and fs[0][2] != wk and not v.rows[t]['argerr']:
                         bad.append(('report-truth', 'task %d failure kind %d, expected %d' % (t, fs[0][2], wk)))
             if not v.started(t) and code == 6:
@@ -302,7 +302,7 @@ def gen_for(pid, rng):
         for t in c['tasks']:
             r = rng.random()
             if r < 0.22:
-                t['outcome'] = rng.choice(['fail', 'fail', 'error', 'saveerr'])
+                t['outcome'] = rng.choice(['fail', 'fail', 'error', 'saveerr', 'failv'])
             if rng.random() < 0.08:
                 t['check'] = 'err'
         if prof.get('multi_fail') and rng.random() < 0.5:
